@@ -194,7 +194,7 @@ def run(env) -> Result:
     # purity histories over cstruct objects that share definition text but not constants / typedefs (see s6_c14)
     s6_c14.run(env, res, viol, mkrng(env["seed"], "c14:s6"), 24 if tier == "quick" else 400)
     # history independence of resolve / parse / construct (alias chains re-pointed with replace=True; dumps & co. before construction)
-    t4_c14.run(env, res, viol, mkrng(env["seed"], "c14:t4"), 60 if tier == "quick" else 1500, 60 if tier == "quick" else 1500)
+    t4_c14.run(env, res, viol, mkrng(env["seed"], "c14:t4"), 60 if tier == "quick" else 1000, 60 if tier == "quick" else 1000)
     res.sample({"history_example": "construct@cs0, inplace-array@cs0/inst0, construct@cs0, endian@cs1, parse@cs1, ..."})
     return res
 
